@@ -12,6 +12,8 @@ iterable) x 14 shapes that read a probe name OUTSIDE the comprehension (other
 operand/argument of the same expression, arms of an `if` whose condition holds
 it, after that `if`, in/after a loop whose header holds it, element of an
 enclosing comprehension) x 4 probe names.
+Plus family W (both tiers, complete, run in the E shards): `k = 0; [R = u]; while k < n and R > 0:
+k = k + 1; <body>` with R in {a, b, x, i} bound only in the body (8 forms), only before, both or nowhere.
 
 Oracle (a), dynamic: an accepted program never fails with NameError /
 UnboundLocalError / a KeyError whose key is an identifier (missing definition,
@@ -62,7 +64,7 @@ def make_args(inp):
 # others are used only to *name* what a wrongly accepted program relied on.
 # ---------------------------------------------------------------------------
 
-LEAKS = ('for-target', 'for-body', 'while-body', 'if1-body', 'ifelse-arm', 'comp-var')
+LEAKS = ('for-target', 'for-body', 'while-body', 'while-cond-sees-body', 'if1-body', 'ifelse-arm', 'comp-var')
 
 USES = {'a=u': ('u',), 'b=a': ('a',), 'ab=uv': ('u', 'v'), 'b=comp': ('us',), 'k=0': (), 'pass': ()}
 DEFS = {'a=u': ('a',), 'b=a': ('b',), 'ab=uv': ('a', 'b'), 'b=comp': ('b',), 'k=0': ('k',), 'pass': ()}
@@ -135,7 +137,8 @@ class ScopeModel:
     def stmt(self, st, D, live, path):
         op = st[0]
         if op == 'let':
-            return self.expr(st[2], D, live, path) | {st[1]}, live
+            names = (st[1],) if isinstance(st[1], str) else st[1]
+            return self.expr(st[2], D, live, path) | frozenset(names), live
         if op == 'rete':
             return self.expr(st[1], D, live, path), False
         if op.startswith('ret_'):
@@ -172,10 +175,15 @@ class ScopeModel:
                 out = out | (Db - T)
             return out, live
         if op in ('while', 'whilex'):
-            # the condition, before the first trip
-            D = self.expr(('op', '', ('n', 'k'), ('n', 'n')) if op == 'while' else st[1], D, live, path)
+            # The condition is evaluated before the first trip, where nothing the body binds exists yet:
+            # a name bound only in the body is not readable in the condition.
+            cond = ('op', '', ('n', 'k'), ('n', 'n')) if op == 'while' else st[1]
+            if 'while-cond-sees-body' not in self.leaks:
+                D = self.expr(cond, D, live, path)
             self.read(('k',), D, live, path + (0,))   # k = k + 1
             Db, lb = self.block(st[-1], D, live, path + (0,))
+            if 'while-cond-sees-body' in self.leaks:
+                self.expr(cond, Db if lb else D, live, path)
             return (Db if lb and 'while-body' in self.leaks else D), live
         raise ValueError(op)
 
@@ -262,7 +270,8 @@ class Check(BaseCheck):
     def bounds(self):
         b = {'max_statements': self.maxsize,
              'programs_per_size': {str(n): len(self.space.programs(n)) for n in range(1, self.maxsize + 1)},
-             'family_E_comprehension_subexpressions': len(self.space.programs('E')),
+             'family_E_comprehension_subexpressions': len(self.space.programs('E')) - len(G.W_PROGRAMS),
+             'family_W_while_condition_reads': len(G.W_PROGRAMS),
              'inputs_per_accepted_program': len(INPUTS)}
         if self.tier == 'quick':
             b['extra_slice'] = (f'size-5 programs with index = {self.seed % self.SLICE} mod {self.SLICE} '
@@ -450,6 +459,8 @@ class Check(BaseCheck):
         assert ScopeModel().run(esc).bad and ScopeModel().run(arm).bad and not ScopeModel().run(fine).bad
         assert blame(esc) == 'comp-var' and blame(arm) == 'comp-var'
         assert not ScopeModel().run(shadow).bad and ScopeModel(py_comp=True).run(shadow).bad
+        wbad, wok = G.W_PROGRAMS[0], G.W_PROGRAMS[16]     # R bound only in the body / also before the loop
+        assert ScopeModel().run(wbad).bad and blame(wbad) == 'while-cond-sees-body' and not ScopeModel().run(wok).bad
 
     # ---- replay -------------------------------------------------------------
     def replay(self, case):
